@@ -141,10 +141,12 @@ def factories():
 
 
 def drive(rec, s, fac):
+    from ..workloads import copies as _CP
+
     n = W9.count(s)
     for kn, f in fac.items():
         for i in range(n):
-            root = W9.build(s, f)
+            root = _CP.routed(W9.build(s, f), "tree", every=9)
             node = S.nodes_preorder(root)[i]
             around = [x for x in (node, node.parent, node.parent.parent if node.parent is not None else None) if x is not None]
             if i % 2 == 0:
